@@ -158,10 +158,14 @@ def r11a(ctx: Context) -> None:
         first, last = norm(tup.elts[0]), norm(tup.elts[1])
         key = f"{many.short}: range"
         line_param = plus_one(tup.elts[0], many)
+        def plain_count(expr: ast.AST) -> bool:
+            """the count as parsed: a local, a field of the parse result or an element of it - no arithmetic on it"""
+            return isinstance(expr, (ast.Name, ast.Attribute, ast.Subscript)) and not any(isinstance(sub, (ast.BinOp, ast.Call)) for sub in ast.walk(expr))
+
+        last = tup.elts[1]
         last_ok = (
-            line_param is not None and isinstance(tup.elts[1], ast.BinOp) and isinstance(tup.elts[1].op, ast.Add)
-            and {type(tup.elts[1].left), type(tup.elts[1].right)} == {ast.Name}
-            and line_param in (norm(tup.elts[1].left), norm(tup.elts[1].right))
+            line_param is not None and isinstance(last, ast.BinOp) and isinstance(last.op, ast.Add)
+            and ((norm(last.left) == line_param and plain_count(last.right)) or (norm(last.right) == line_param and plain_count(last.left)))
         )
         if line_param and last_ok:
             rule.ok(key, "range (line+1, line+N)")
@@ -680,8 +684,12 @@ def r11g(ctx: Context) -> None:
                             acted = True  # a valid id was collected in a local; what becomes of it is checked by R11a / the caller
                 if isinstance(stmt, ast.Assign) and isinstance(stmt.targets[0], ast.Subscript) and isinstance(stmt.targets[0].value, ast.Name) and stmt.targets[0].value.id in tables:
                     acted = True
-                if isinstance(stmt, ast.Return) and isinstance(stmt.value, ast.Tuple) and stmt.value.elts and isinstance(stmt.value.elts[0], ast.Constant) and stmt.value.elts[0].value is True:
-                    explicit_ok = True  # parse helper reporting success to its caller
+                if isinstance(stmt, ast.Return) and stmt.value is not None and not (isinstance(stmt.value, ast.Constant) and not stmt.value.value):
+                    carried = [n for n in ast.walk(stmt.value) if isinstance(n, ast.Name)]
+                    flagged_ok = isinstance(stmt.value, ast.Tuple) and stmt.value.elts and isinstance(stmt.value.elts[0], ast.Constant) and stmt.value.elts[0].value is True
+                    flagged_bad = isinstance(stmt.value, ast.Tuple) and stmt.value.elts and isinstance(stmt.value.elts[0], ast.Constant) and stmt.value.elts[0].value is False
+                    if flagged_ok or (carried and not flagged_bad and func is not entry):
+                        explicit_ok = True  # a parse helper handing its result to its caller, which goes on with it
             if not acted and not explicit_ok:
                 bad = path
                 break
@@ -700,7 +708,11 @@ def r11g(ctx: Context) -> None:
         t.id for n in walk_local(parse.node) if isinstance(n, ast.Assign) and any(isinstance(c, ast.Call) and dotted(c.func) == "int" for c in ast.walk(n.value))
         for t in n.targets if isinstance(t, ast.Name)
     }
-    successes = [r for r in returns_of(parse) if isinstance(r, ast.Tuple) and r.elts and isinstance(r.elts[0], ast.Constant) and r.elts[0].value is True]
+    successes = [
+        r for r in returns_of(parse)
+        if isinstance(r, ast.Tuple) and any(isinstance(e, ast.Name) and e.id in counts for e in r.elts)
+        and not (r.elts and isinstance(r.elts[0], ast.Constant) and r.elts[0].value is False)
+    ]
     if not counts or not successes:
         raise AnalysisError("disable-num-lines parse helper: count variable or success return not found")
     for ret in successes:
